@@ -12,8 +12,8 @@ def run(ctx):
                 "oracle: ids handed out are pairwise distinct with the allocator's parity; (c) scenarios: 1-3 creator threads x 2-12 open/transfer/close cycles "
                 "(remote creates and sends a channel back, local creates and sends one nested in containers, plain): items arrive on the intended "
                 "conversation, ids distinct, _channels/_callbacks/remote numchannels back at baseline")
-    netprops.op_level(ctx, res, PROP, ctx.budget(400, 4000, 600))
-    netprops.run_scenarios(ctx, res, netprops.scenario_ids, ctx.budget(60, 3000, 250), "ids")
+    netprops.op_level(ctx, res, PROP, ctx.budget(400, 24000, 600))
+    netprops.run_scenarios(ctx, res, netprops.scenario_ids, ctx.budget(60, 18000, 250), "ids")
     return res
 
 
